@@ -7,6 +7,7 @@ import (
 	"github.com/dgraph-io/badger/v3"
 
 	"github.com/glebziz/fs_db/internal/model/transactor"
+	"github.com/glebziz/fs_db/internal/verifhook"
 )
 
 type Item struct {
@@ -44,6 +45,7 @@ func New(dbPath string) (*Manager, error) {
 }
 
 func (m *Manager) Set(key []byte, val []byte) error {
+	verifhook.Mut("kv.set", string(key))
 	return m.db.Update(func(txn *badger.Txn) error {
 		return txn.Set(key, val)
 	})
@@ -72,6 +74,7 @@ func (m *Manager) Get(key []byte) (data []byte, err error) {
 }
 
 func (m *Manager) Delete(key []byte) error {
+	verifhook.Mut("kv.delete", string(key))
 	return m.db.Update(func(txn *badger.Txn) error {
 		return txn.Delete(key)
 	})
